@@ -77,7 +77,8 @@ def make_spec(r, op, method, quick, force=None):
         D = r.range(2, 8)
         N = r.choice([4, 8, 16]) if method == "lltsa" and r.chance(3, 4) else r.range(3, 16)
         spec.update({"D": D, "d": 0, "k": 0, "kind": "integer", "pts": gen_features(r, N, D, 1),
-                     "wseed": r.below(1 << 60), "sym": r.chance(2, 3), "density": r.choice([20, 40, 100])})
+                     "wseed": r.below(1 << 60), "sym": r.chance(2, 3), "density": r.choice([20, 40, 100]),
+                     "dseed": r.below(1 << 60) if r.chance(1, 2) else None})
         return spec
     D = force.get("D") or r.choice([2, 3, 3, 4, 5, 6, 8, 12] + ([30] if r.chance(1, 3) else [5]))
     d = force.get("d") or r.range(1, min(4, D - 1))
@@ -94,6 +95,8 @@ def make_spec(r, op, method, quick, force=None):
         "shift": r.choice(["0", "1:-30", "1:-10"]), "tshift": r.choice(["1:-10", "1:-7", "1:-13"]),
         "decade": r.range(0, 10), "nm": r.choice(["brute", "vptree", "covertree"]), "cc": r.choice(["0", "1"]),
         "seed": str(r.below(1 << 30)),
+        # half of the cases hand the library a NON-identity range (shuffled subset of the samples the callbacks know)
+        "dseed": r.below(1 << 60) if r.chance(1, 2) else None,
     })
     return spec
 
@@ -110,10 +113,20 @@ def sparse_int_matrix(r, N, sym, density):
     return W
 
 
+def decoy_rows(spec, mult):
+    D = spec["D"]
+    return lambda rr: [Fraction(rr.range(-9, 9) * mult) for _ in range(D)]
+
+
 def build_line(spec):
     F = spec["pts"]
     N = len(F)
     D = spec["D"]
+    sel = None
+    Fall = F
+    if spec.get("dseed") is not None:
+        Fall, sel = _ll.with_decoys(F, spec["dseed"], decoy_rows(spec, 5 ** spec.get("givens", 0)))
+    selS = (" sel=" + ",".join(str(i) for i in sel)) if sel is not None else ""
     if spec["op"] != "embed":
         r = vlib.SplitMix64(spec["wseed"])
         W = sparse_int_matrix(r, N, spec["sym"], spec["density"])
@@ -121,9 +134,10 @@ def build_line(spec):
         head = "op=%s N=%d D=%d mode=%s" % (spec["op"], N, D, "exact" if exact else "approx")
         if spec["op"] == "lpp":
             head += " Dg=" + ",".join(str(r.range(1, 9)) for _ in range(N))
-        return head + " feat=" + _ll.fmt_matrix(F) + " W=" + _ll.fmt_matrix(W)
+        return head + selS + " feat=" + _ll.fmt_matrix(Fall) + " W=" + _ll.fmt_matrix(W)
     K = _ll.kernel_matrix(F, "linear")
     Dm = _ll.distance_matrix(F, "l2")
+    Kall, Dall = (K, Dm) if sel is None else (_ll.kernel_matrix(Fall, "linear"), _ll.distance_matrix(Fall, "l2"))
     k = min(spec["k"], N - 1)
     d = min(spec["d"], D)
     knn = [sorted(Dm[i][j] for j in range(N) if j != i)[k - 1] for i in range(N)]
@@ -131,15 +145,15 @@ def build_line(spec):
     width = _ll.as_double(ref * ref * Fraction(10) ** (spec["decade"] // 2) * (Fraction(3162, 1000) if spec["decade"] % 2 else 1) / 10)
     head = "op=embed method=%s leg=%s N=%d D=%d k=%d d=%d nm=%s cc=%s seed=%s shift=%s tshift=%s width=%s" % (
         spec["method"], spec["leg"], N, D, k, d, spec["nm"], spec["cc"], spec["seed"], spec["shift"], spec["tshift"], _ll.fmt(width))
-    line = head + " feat=" + _ll.fmt_matrix(F)
+    line = head + selS + " feat=" + _ll.fmt_matrix(Fall)
     if spec["leg"] == "rot":
         R = gen_rotation(vlib.SplitMix64(spec["rseed"]), D, spec["givens"])
         Rt = [[R[j][i] for j in range(D)] for i in range(D)]
-        F2 = matmul(F, Rt)
+        F2 = matmul(Fall, Rt)
         assert all(v.denominator == 1 for row in F2 for v in row), "rotated features must stay integers"
-        assert _ll.kernel_matrix(F2, "linear") == K
+        assert _ll.kernel_matrix(F2, "linear") == Kall
         line += " feat2=" + _ll.fmt_matrix(F2) + " rot=" + ";".join(",".join("%d/%d" % (v.numerator, v.denominator) for v in row) for row in R)
-    return line + " kern=" + _ll.fmt_matrix(K) + " dist=" + _ll.fmt_matrix(Dm)
+    return line + " kern=" + _ll.fmt_matrix(Kall) + " dist=" + _ll.fmt_matrix(Dall)
 
 
 def label(spec):
